@@ -355,14 +355,14 @@ impl CreateEdge {
         let sink = self.sink.evaluate(exec)?.into_graph_node_ref()?;
         #[cfg(feature = "verif")]
         let verif_new = exec.graph[source].get_edge(sink).is_none();
-        let edge = match exec.graph[source].add_edge(sink) {
-            Ok(edge) | Err(edge) => edge,
-        };
+        // creating an edge that already exists keeps the edge and its attributes
+        if let Ok(edge) = exec.graph[source].add_edge(sink) {
+            self.add_debug_attrs(&mut edge.attributes, exec.config)?;
+        }
         #[cfg(feature = "verif")]
         crate::verif::emit(|| {
             crate::verif::json!({"e": "edge", "src": source.index(), "dst": sink.index(), "new": verif_new})
         });
-        self.add_debug_attrs(&mut edge.attributes, exec.config)?;
         Ok(())
     }
 }
